@@ -1,8 +1,15 @@
 (* C15 — caller and stack annotations identify the user's call site.
    Only statements closed by [exact]; the proofs are in C15/Proofs.v.
 
-   Reading guide.  [us] is the user's goroutine stack, innermost first, from the function that
-   makes the log call outwards; [cs] is ANY list of conversions applied to zap.New(core):
+   Reading guide.  [us] is the goroutine's stack, innermost first, from the function that makes
+   the log call outwards: the call site and its callers, followed by whatever else is on the stack
+   (the call may be nested in a Stringer / error / Formatter an outer log.Printf is formatting, in
+   the io.Writer of an outer *log.Logger, in a hook / marshaler / sink of another zap logger, in a
+   deferred function during a panic, below deep recursion).  [us] is an ARBITRARY list of frames:
+   only its head, the call site itself, must not be a function whose name starts with "log."
+   ([hd_not_log us]; [FL id] frames are the "log."-prefixed ones).  The theorems
+   C15_context_independent .. C15_std_count_all_refuted say it in so many words: the reported frame
+   is a function of the call site and the configured skip only.  [cs] is ANY list of conversions applied to zap.New(core):
    Sugar / Desugar / With / WithLazy / Named / WithOptions(AddCallerSkip n | WithCaller b |
    AddStacktrace en | other) / L() / S(); [f] is any front end (every *Logger method, every
    *SugaredLogger method, the std-log bridge through any log function) whose receiver kind is
@@ -145,6 +152,85 @@ Theorem C15_std_any_log_depth : forall fuel core cs lv (lf us : list frame) stor
 Proof. exact std_any_depth_thm. Qed.
 Print Assumptions C15_std_any_log_depth.
 
+(* STACK-CONTEXT INDEPENDENCE.  The goroutine's stack is [near ++ ctx]: [near] = the call site and
+   its callers as far as the configured skip reaches, [ctx] = ANYTHING further out (log-package
+   frames of an outer log.Printf / *log.Logger, frames of another zap logger's hook / encoder / sink,
+   fmt, runtime.gopanic, hundreds of recursion frames, or nothing at all on a fresh goroutine).
+   For every front end, chain, level and slab: the reported caller, whether an entry is produced and
+   the frame the trace starts at are the same in any two contexts, and the caller is the frame of
+   [near] at the configured skip *)
+Theorem C15_context_independent : forall fuel1 fuel2 core cs f lvl (near ctx1 ctx2 : list frame) storage1 storage2,
+  fe_sugared f = chain_kind cs -> 0 <= total_skip cs -> (1 <= storage1)%nat -> (1 <= storage2)%nat ->
+  (length (near ++ ctx1) + 12 <= fuel1)%nat -> (length (near ++ ctx2) + 12 <= fuel2)%nat ->
+  hd_not_log near = true -> (Z.to_nat (total_skip cs) < length near)%nat ->
+  let out1 := log_via fuel1 f (apply_chain (HL (new_logger core)) cs) lvl (near ++ ctx1) storage1 in
+  let out2 := log_via fuel2 f (apply_chain (HL (new_logger core)) cs) lvl (near ++ ctx2) storage2 in
+  caller_of out1 = caller_of out2 /\
+  hd_error (stack_of out1) = hd_error (stack_of out2) /\
+  is_entry out1 = is_entry out2 /\
+  (core (fe_level f lvl) = true -> cfg_caller_on cs = true ->
+   caller_of out1 = nth_error near (Z.to_nat (total_skip cs))).
+Proof. exact context_independent_thm. Qed.
+Print Assumptions C15_context_independent.
+
+(* the trace in a context: the call site's own chain from the reported frame, then the whole
+   context whatever it is, minus the final frame *)
+Theorem C15_stack_in_context : forall fuel core cs f lvl (near ctx : list frame) storage,
+  fe_sugared f = chain_kind cs -> 0 <= total_skip cs -> (1 <= storage)%nat ->
+  (length (near ++ ctx) + 12 <= fuel)%nat ->
+  hd_not_log near = true -> (Z.to_nat (total_skip cs) < length near)%nat ->
+  core (fe_level f lvl) = true -> cfg_stack_on cs (fe_level f lvl) = true -> ctx <> [] ->
+  stack_of (log_via fuel f (apply_chain (HL (new_logger core)) cs) lvl (near ++ ctx) storage)
+  = skipn (Z.to_nat (total_skip cs)) near ++ removelast ctx.
+Proof. exact stack_in_context_thm. Qed.
+Print Assumptions C15_stack_in_context.
+
+Theorem C15_slog_context_independent : forall fuel1 fuel2 core os m slvl (near ctx1 ctx2 : list frame) storage1 storage2,
+  0 <= hopts_skip os -> (1 <= storage1)%nat -> (1 <= storage2)%nat ->
+  (length (near ++ ctx1) + 8 <= fuel1)%nat -> (length (near ++ ctx2) + 8 <= fuel2)%nat ->
+  (Z.to_nat (hopts_skip os) < length near)%nat ->
+  let out1 := slog_log slog_handle fuel1 (new_handler core os) m slvl (near ++ ctx1) storage1 in
+  let out2 := slog_log slog_handle fuel2 (new_handler core os) m slvl (near ++ ctx2) storage2 in
+  caller_of out1 = caller_of out2 /\
+  (core (convertSlogLevel slvl) = true -> hcfg_caller false os = true ->
+   caller_of out1 = nth_error near (Z.to_nat (hopts_skip os))).
+Proof. exact slog_context_independent_thm. Qed.
+Print Assumptions C15_slog_context_independent.
+
+(* the std-log bridge above any chain [lf] of log-package frames of its own, in any context -- [ctx]
+   may consist of log-package frames only: the scan stops at the call site *)
+Theorem C15_std_context_independent : forall fuel core cs lv (lf near ctx : list frame) storage l,
+  apply_chain (HL (new_logger core)) cs = HL l ->
+  0 <= total_skip cs -> (1 <= storage)%nat -> (length lf + length (near ++ ctx) + 6 <= fuel)%nat ->
+  forallb is_log_frame lf = true -> (length lf < stdLogScan)%nat ->
+  hd_not_log near = true -> (Z.to_nat (total_skip cs) < length near)%nat ->
+  core lv = true -> cfg_caller_on cs = true ->
+  caller_of (log_std fuel l lv lf (near ++ ctx) storage) = nth_error near (Z.to_nat (total_skip cs)).
+Proof. exact std_context_independent_thm. Qed.
+Print Assumptions C15_std_context_independent.
+
+(* the model can express the failure: a scan that counts EVERY log frame among the 16 it looks at
+   (no break at the first frame outside the log package) agrees with the code on every stack that
+   has no log frame further out than the call site -- which is every call made from plain code -- *)
+Theorem C15_std_count_all_plain_agrees : forall fuel l lv lf us storage,
+  forallb is_log_frame lf = true -> forallb (fun f => negb (is_log_frame f)) us = true ->
+  log_std_countall fuel l lv lf us storage = log_std fuel l lv lf us storage.
+Proof. exact std_countall_plain_agrees. Qed.
+Print Assumptions C15_std_count_all_plain_agrees.
+
+(* ... and names a frame of fmt (frame 21) instead of the call site (frame 10) for a Print made
+   from a String method that a *log.Logger's Printf is formatting; the code names frame 10 *)
+Theorem C15_std_count_all_refuted :
+  hd_not_log ctx_near = true /\ (Z.to_nat (total_skip ctx_chain) < length ctx_near)%nat /\
+  caller_of (log_std 100 (base_of (apply_chain (HL (new_logger ctx_core)) ctx_chain)) InfoLevel (std_frames 0 0)
+                     (ctx_near ++ ctx_stringer) initStorage) = Some (FU 10) /\
+  caller_of (log_std_countall 100 (base_of (apply_chain (HL (new_logger ctx_core)) ctx_chain)) InfoLevel (std_frames 0 0)
+                              (ctx_near ++ ctx_stringer) initStorage) = Some (FU 21) /\
+  caller_of (log_std_countall 100 (base_of (apply_chain (HL (new_logger ctx_core)) ctx_chain)) InfoLevel (std_frames 0 0)
+                              (ctx_near ++ [FU 40; FU 99]) initStorage) = Some (FU 10).
+Proof. exact std_countall_refuted. Qed.
+Print Assumptions C15_std_count_all_refuted.
+
 (* pre-fix behaviour, kept as documentation (definitions ..._orig):
    fixed skip of 3 -> log.Panic through NewStdLog names the log package *)
 Theorem C15_std_fixed_depth_refuted :
@@ -282,6 +368,18 @@ Proof. vm_compute. reflexivity. Qed.
 Example C15_example_wire :
   wf (SL [SZ 0; SL [SZ 1; SZ 2; SZ 3]; SL [SL [SZ 5; SL [SL [SZ 1; SZ 1]; SL [SZ 0; SZ 1]]]; SL [SZ 0]]; SZ 0; SL [SZ 0; SZ (-1)];
           SL [SZ 10; SZ 11; SZ 12]]) = true.
+Proof. vm_compute. reflexivity. Qed.
+(* log.Print (RedirectStdLog) made from a String method that the package-level log.Printf is formatting: the
+   stack ships three "log."-prefixed frames (30 31 32) further out; well-formed, and the caller is frame 10 *)
+Definition ex_nested : sx :=
+  SL [SZ 0; SL [SZ 2; SZ 2; SZ 0]; SL [SL [SZ 5; SL [SL [SZ 1; SZ 1]]]]; SZ 0; SL [SZ 0; SZ (-1)];
+      SL [SZ 10; SZ 11; SZ 20; SZ 21; SL [SZ 30; SZ 1]; SL [SZ 31; SZ 1]; SL [SZ 32; SZ 1]; SZ 40; SZ 99]].
+Example C15_example_nested : wf ex_nested = true /\ model ex_nested = SL [SZ 1; SL [SZ 10]; SL []; SZ 0].
+Proof. vm_compute. split; reflexivity. Qed.
+(* a case whose call site itself is "log."-prefixed is outside the theorems *)
+Example C15_example_site_in_log_package :
+  wf (SL [SZ 0; SL [SZ 2; SZ 0; SZ 0]; SL [SL [SZ 5; SL [SL [SZ 1; SZ 1]]]]; SZ 0; SL [SZ 0; SZ (-1)];
+          SL [SL [SZ 10; SZ 1]; SZ 11; SZ 99]]) = false.
 Proof. vm_compute. reflexivity. Qed.
 (* a session on one logger: Panicln through NewStdLog (recovered), Print on the same bridge, Infow on
    l.Sugar(), a zapgrpc call, slog Warn: well-formed, and every call reports frame 10 *)
